@@ -526,6 +526,16 @@ impl FileSystem for ScriptFs {
         if let Some(e) = self.err() {
             return Err(e);
         }
+        if self.ans() == "perr" {
+            // fault probe: the file system fails after some entries have been accepted
+            for (nm, ino, off, ty) in self.dirents() {
+                match add_entry(DirEntry { ino, offset: off, type_: ty, name: &nm }) {
+                    Ok(0) | Err(_) => break,
+                    Ok(_) => {}
+                }
+            }
+            return Err(io::Error::from_raw_os_error(kn(&self.kv, "errno") as i32));
+        }
         if self.ans() != "dirents" {
             return Err(enosys());
         }
@@ -549,6 +559,18 @@ impl FileSystem for ScriptFs {
         self.record("readdirplus", ctx, &[inode.to_string(), handle.to_string(), size.to_string(), offset.to_string()]);
         if let Some(e) = self.err() {
             return Err(e);
+        }
+        if self.ans() == "perr" {
+            for (nm, ino, off, ty) in self.dirents() {
+                let mut e = read_entry(&self.kv);
+                e.inode = ino;
+                e.attr.st_ino = ino;
+                match add_entry(DirEntry { ino, offset: off, type_: ty, name: &nm }, e) {
+                    Ok(0) | Err(_) => break,
+                    Ok(_) => {}
+                }
+            }
+            return Err(io::Error::from_raw_os_error(kn(&self.kv, "errno") as i32));
         }
         if self.ans() != "dirents" {
             return Err(enosys());
